@@ -297,6 +297,7 @@ class StmtMixin:
         if isinstance(base, Ref):
             cell = self.path.cell(base)
             if isinstance(cell, DictCell):
+                idx = self.unwrap_key(idx)
                 key = self.dict_key(cell, idx)
                 if key is not None and key.__class__.__name__ == "_Missing":
                     from .values import SymKey
